@@ -170,6 +170,32 @@ impl Node {
         r
     }
 
+    /// Raw bytes on a socket session (C10): no answer is awaited; whatever comes back within 40 ms is kept
+    /// as pushed lines.
+    pub fn raw(&mut self, c: &str, opcode: u8, fin: bool, bytes: &[u8]) -> J {
+        if self.transport == "direct" {
+            return json!({"cls":"ok"});
+        }
+        if !self.conns.contains_key(c) {
+            let conn = if self.transport == "tcp" { crate::net::Conn::tcp(self.port) } else { crate::net::Conn::ws(self.port) };
+            match conn {
+                Ok(k) => {
+                    self.conns.insert(c.to_string(), k);
+                }
+                Err(e) => return json!({"cls":"closed","msg":e}),
+            }
+        }
+        let k = self.conns.get_mut(c).unwrap();
+        let r = match k.send_raw(opcode, fin, bytes) {
+            Ok(_) => json!({"cls":"ok"}),
+            Err(e) => json!({"cls":"closed","msg":e}),
+        };
+        let got = k.collect_until_quiet(std::time::Duration::from_millis(40));
+        self.net_inbox.entry(c.to_string()).or_insert(vec![]).extend(got);
+        self.settle();
+        r
+    }
+
     /// Waits until the server threads have nothing left to do: the projection of the node does not
     /// change for 40 ms (handlers poll their sockets every 2 ms).
     fn settle(&self) {
@@ -242,6 +268,53 @@ impl Node {
             Ok(Response::VersionError { msg, .. }) => json!({"cls":"verr","msg":msg}),
             Err(e) => json!({"cls":"panic","msg":panic_msg(e)}),
         }
+    }
+
+    /// The client's socket is dropped abruptly (no close frame, no half-close).
+    pub fn forget(&mut self, c: &str) {
+        self.conns.remove(c);
+        self.net_inbox.remove(c);
+        self.settle();
+    }
+
+    /// A connection that does not end with the client's orderly close (socket transports; in process it is
+    /// the ordinary close).  `badline`: bytes that are not UTF-8 (TCP) / a binary frame that is not UTF-8
+    /// (WebSocket), then the orderly close.  `rst`: commands are sent, their answers are left unread and the
+    /// socket is dropped -- the kernel resets the connection.  `drop`: the socket is dropped without a
+    /// half-close / close frame.  The positive signal that the server is done with the connection is the end of
+    /// the thread it keeps per connection (threads of this process, 3 s at most).
+    pub fn close_abrupt(&mut self, c: &str, how: &str) -> J {
+        nundb::verif::set_data_dir(Some(self.dir.clone()));
+        if self.transport == "direct" {
+            return self.close(c);
+        }
+        let threads = || std::fs::read_dir("/proc/self/task").map(|d| d.count()).unwrap_or(0);
+        if let Some(mut k) = self.conns.remove(c) {
+            let before = threads();
+            match how {
+                "badline" => {
+                    let _ = if k.is_tcp() { k.send_raw(0, true, b"\xff\xfe\xfd\n") } else { k.send_raw(2, true, b"\xff\xfe\xfd") };
+                    let _ = k.collect_until_quiet(std::time::Duration::from_millis(30));
+                    k.close();
+                }
+                "rst" => {
+                    for _ in 0..3 {
+                        let _ = k.send("keys zzz-no-such-key");
+                    }
+                    // the answers reach this socket's receive queue and stay unread
+                    std::thread::sleep(std::time::Duration::from_millis(50));
+                    drop(k);
+                }
+                _ => drop(k),
+            }
+            let deadline = std::time::Instant::now() + std::time::Duration::from_millis(10000);
+            while threads() >= before && std::time::Instant::now() < deadline {
+                std::thread::sleep(std::time::Duration::from_millis(5));
+            }
+            self.settle();
+        }
+        self.net_inbox.remove(c);
+        json!({"cls":"ok"})
     }
 
     /// What the transports do when a connection ends.
